@@ -216,9 +216,11 @@ class Verifier(Stmts):
                 info['normal_paths'] += 1
                 result = None if ctl is None else ctl.val
                 self.check_normal(con, qualname, s, result, pre_frame_vars)
+                self.check_frame(con, qualname, s)
             elif ctl.kind == 'raise':
                 info['raising_paths'] += 1
                 self.check_raise(con, qualname, s, ctl.val, pre_frame_vars)
+                self.check_frame(con, qualname, s)
             else:
                 raise Outside("loop control escaping function %s" % qualname)
         info['exec_seconds'] = round(time.time() - t0, 3)
@@ -278,6 +280,77 @@ class Verifier(Stmts):
         if not (con.raises_only_if_ or con.on_raise_ or con.on_any_ or con.raises_allowed is not None):
             self.oblige(st, z3.BoolVal(True), "%s:raises" % qn, "raising path")
 
+    def modifies_targets(self, con, st, env=None):
+        """(set of (loc, field), set of container locs) a contract allows to change, evaluated in state st"""
+        fields, conts = set(), set()
+        for path in (con.modifies_ or []):
+            node = ast.parse(path, mode='eval').body
+            if isinstance(node, ast.Attribute):
+                try:
+                    objv = self.spec_value(ast.unparse(node.value), st, env)
+                except Outside:
+                    continue
+                if isinstance(objv, Ref):
+                    fields.add((objv.loc, node.attr))
+                    cur = st.heap[objv.loc].fields.get(node.attr) if st.heap[objv.loc].fields is not None else None
+                    if isinstance(cur, Ref):
+                        conts.add(cur.loc)
+            else:
+                try:
+                    val = self.spec_value(path, st, env)
+                except Outside:
+                    continue
+                if isinstance(val, Ref):
+                    conts.add(val.loc)
+                    h = st.heap[val.loc]
+                    if h.kind == 'obj':
+                        for f in h.fields:
+                            fields.add((val.loc, f))
+        return fields, conts
+
+    def check_frame(self, con, qn, st):
+        """heap frame: every field / container of the pre-state heap that the contract does not list under modifies has
+        the value it had on entry (on every path, also the raising ones)"""
+        old = st.old
+        if old is None:
+            return
+        fields, conts = self.modifies_targets(con, old)
+        for loc, h0 in old.heap.items():
+            h1 = st.heap.get(loc)
+            if h1 is None:
+                continue
+            if h0.kind == 'obj' and h0.fields is not None:
+                for f, v0 in h0.fields.items():
+                    if (loc, f) in fields:
+                        continue
+                    v1 = h1.fields.get(f)
+                    self._frame_compare(qn, st, v0, v1, "field %s of %s" % (f, getattr(h0.cls, '__name__', 'object')))
+            elif h0.kind in ('list', 'set', 'dict'):
+                if loc in conts:
+                    continue
+                self._frame_compare(qn, st, h0.val, h1.val, "contents of a %s" % h0.kind)
+
+    def _frame_compare(self, qn, st, v0, v1, what):
+        if v0 is v1:
+            return
+        if isinstance(v0, V) and isinstance(v1, V):
+            if v0.t is None or v1.t is None or v0.t.eq(v1.t):
+                return
+            self.oblige(st, v0.t == v1.t, qn + ":frame", what + " is not listed under modifies but may change")
+            return
+        if isinstance(v0, Ref) and isinstance(v1, Ref):
+            if v0.loc == v1.loc:
+                return
+            self.oblige(st, z3.BoolVal(False), qn + ":frame", what + " is re-bound to another object")
+            return
+        try:
+            same = (v0 == v1)
+        except Exception:
+            same = False
+        if same is True:
+            return
+        self.oblige(st, z3.BoolVal(False), qn + ":frame", what + " changes but is not listed under modifies")
+
     # ------------------------------------------------------------------------------------------------ call sites
 
     def apply_contract(self, con, func, args, kwargs, st):
@@ -329,9 +402,8 @@ class Verifier(Stmts):
             normal.old = pre
             if con.modifies_:
                 self.havoc_paths(con, normal, env)
-            nenv = dict(env)
+            nenv = dict(env)        # lets are entry values: evaluated before the havoc above
             nenv['result'] = result
-            nenv = self.with_lets(con, normal, {'result': result})
             feasible = True
             if not st.spec or con.spec_facts:
                 # inside a specification a summarised call is just the summary term: the callee's post-conditions are
@@ -351,7 +423,8 @@ class Verifier(Stmts):
                     for ecls, when in exc_classes:
                         es = cst.fork()
                         es.old = pre
-                        eenv = self.with_lets(con, es, {'result': None})
+                        eenv = dict(env)
+                        eenv['result'] = None
                         if when:
                             es.assume(self.spec_bool(when, es, eenv))
                         for text in con.raises_only_if_ + con.on_raise_ + con.on_any_:
